@@ -424,6 +424,14 @@ class ProgGen:
             # every object falls back on its own memory, which a buffered and an unbuffered history
             # legitimately leave different)
             return ("extdel", res)
+        if getattr(self, "allow_badroot", False) and cur is not MISSING:
+            # a document the root cannot merge - the other container kind at the root: loads raise until an outside writer puts a mergeable
+            # document back, which it mostly does at its next turn; afterwards everything must work again
+            if isinstance(cur, dict) != is_dict:
+                if self.rng.random() < 0.75:
+                    return ("ext", res, self.vg.container(is_dict, 3))
+            elif self.rng.random() < 0.07:
+                return ("ext", res, self.vg.container(not is_dict, 2))
         if cur is MISSING or self.rng.random() < 0.15:
             return ("ext", res, self.vg.container(is_dict, 3))
         if self.rng.random() < 0.25:
